@@ -59,6 +59,8 @@ def check(reg, tier):
     _call_kernel_contract(reg)
     _calc_theory_contract(reg)
     _name_checks(reg)
+    _set_param_contract(reg)
+    _convenience_contract(reg)
     reg.assume("weights.get_weights replaced by its contract (C02): returns two fresh arrays")
     reg.assume("parameter tables of the builtin models are data facts from the live modules")
     reg.assume("SasView/bumps object plumbing outside the named functions is not under contract")
@@ -490,3 +492,168 @@ def _name_checks(reg):
         it.run_paths(body, max_paths=64)
     except OutsideSubset as exc:
         reg.undecided("%s.create_parameters.engine" % PROP, "outside subset: %s" % exc, function=fn)
+
+
+def _set_param_contract(reg):
+    """SasviewModel.setParam: a name is accepted iff it is a parameter of the model or <dispersible parameter>.<one of
+    its dispersion attributes>; then exactly that entry is set; every other name raises ValueError and leaves the
+    parameter and dispersion dictionaries unchanged (no stray keys)."""
+    import sasmodels.sasview_model as live
+    fn = "sasmodels.sasview_model.SasviewModel.setParam"
+    attrs = ("width", "npts", "nsigmas", "type")
+    legal = {"radius": ("params", "radius"), "sld": ("params", "sld"), "scale": ("params", "scale")}
+    for a in attrs:
+        legal["radius.%s" % a] = ("dispersion", "radius", a)
+        legal["length.%s" % a] = ("dispersion", "length", a)
+    illegal = ["bogus", "bogus.width", "sld.width", "scale.npts", "radius.nsigma", "radius.Width", "length.pd_n",
+               "radius.width.x", "radius.", ".width", "Radius", "radius_pd"]
+    for name in list(legal) + illegal:
+        def body(it, name=name):
+            def disp():
+                return it.new_dict({"width": (True, 0.0), "npts": (True, 35), "nsigmas": (True, 3.0),
+                                    "type": (True, "gaussian")})
+            dispersion = it.new_dict({"radius": (True, disp()), "length": (True, disp())})
+            params = it.new_dict({"radius": (True, 50.0), "length": (True, 400.0), "sld": (True, 1.0), "scale": (True, 1.0)})
+            before_p = dict(params.entries)
+            before_d = {k: dict(v[1].entries) for k, v in dispersion.entries.items()}
+            selfo = it.new_obj(live.SasviewModel, {"dispersion": dispersion, "params": params}, "SasviewModel")
+            value = Sym(z3.Real("value"))
+            f = it.get_func("sasmodels.sasview_model", "SasviewModel.setParam")
+            raised = None
+            try:
+                it.call(f, [selfo, name, value])
+            except IRaise as exc:
+                raised = exc.value
+            after_p = dict(params.entries)
+            after_d = {k: dict(v[1].entries) for k, v in dispersion.entries.items()}
+            same_keys = set(after_p) == set(before_p) and set(after_d) == set(before_d) \
+                and all(set(after_d[k]) == set(before_d[k]) for k in before_d)
+            rp = lambda mdl=None: _set_param_replay()
+            tag = name.replace(".", "_dot_") or "empty"
+            if name in legal:
+                where = legal[name]
+                if where[0] == "params":
+                    stored = after_p[where[1]][1] is value
+                    others = all(after_p[k] == before_p[k] for k in before_p if k != where[1]) and after_d == before_d
+                else:
+                    stored = after_d[where[1]][where[2]][1] is value
+                    others = after_p == before_p and all(
+                        after_d[k][a] == before_d[k][a] for k in before_d for a in before_d[k] if (k, a) != where[1:])
+                reg.prove("%s.setParam.legal_name_sets_exactly_its_entry.%s" % (PROP, tag), it.pc,
+                          z3.BoolVal(bool(raised is None and stored and others and same_keys)), function=fn, replay=rp)
+            else:
+                reg.prove("%s.setParam.unknown_name_is_refused_and_nothing_changes.%s" % (PROP, tag), it.pc,
+                          z3.BoolVal(bool(isinstance(raised, ValueError) and after_p == before_p and after_d == before_d)),
+                          function=fn, replay=rp)
+        it = Interp(reg)
+        it.poison_one_arm = False
+        try:
+            it.run_paths(body)
+        except OutsideSubset as exc:
+            reg.undecided("%s.setParam.engine.%s" % (PROP, name), "outside subset: %s" % exc, function=fn)
+
+
+def _set_param_replay():
+    """Real SasviewModel of the cylinder: misspelt dispersity attributes must be refused."""
+    from sasmodels.sasview_model import load_standard_models, MODELS
+    if "cylinder" not in MODELS:
+        load_standard_models()
+    m = MODELS["cylinder"]()
+    out, bad = {}, False
+    for name in ("radius.nsigma", "length.Width", "radius.pd_n", "bogus.width", "sld.width"):
+        try:
+            m.setParam(name, 3.0)
+            out[name] = "accepted"
+            bad = True
+        except ValueError:
+            out[name] = "ValueError"
+    m.setParam("radius.width", 0.2)
+    if m.dispersion["radius"]["width"] != 0.2:
+        bad = True
+        out["radius.width"] = "not stored"
+    return bad, {"call": "SasviewModel(cylinder).setParam(<misspelt names>, 3.0)", "real": out,
+                 "spec": "ValueError for every misspelt name"}
+
+
+def _convenience_contract(reg):
+    """direct_model.Iq / Iqxy: the data object handed to the calculator carries q and the resolution arguments in
+    the documented slots (dq -> dx; ql, qw -> dxl, dxw; dqx -> dqx_data, dqy -> dqy_data), the model name and the
+    parameter keywords are forwarded unchanged."""
+    import sasmodels.data as sdata
+    fn = "sasmodels.direct_model.Iqxy"
+
+    def body(it):
+        seen = {}
+
+        def direct(it_, a, k):
+            seen["model"], seen["data"], seen["pars"] = a[0], a[1], a[2]
+            return "result"
+        it.summaries[MOD + "._direct_calculate"] = Summary(direct, "_direct_calculate (contract: DirectModel)", contract=False)
+
+        def data2d(it_, a, k):
+            return it_.new_obj(None, {"qx_data": k.get("x"), "qy_data": k.get("y"), "dqx_data": k.get("dx"),
+                                      "dqy_data": k.get("dy")}, "Data2D")
+        it.models[sdata.Data2D] = data2d
+        n = z3.Int("n")
+        qx, qy, dqx, dqy = (it.new_array(nm, n, "real") for nm in ("qx", "qy", "dqx", "dqy"))
+        f = it.get_func(MOD, "Iqxy")
+        radius = Sym(z3.Real("radius"))
+        out = it.call(f, ["sphere", qx, qy], {"dqx": dqx, "dqy": dqy, "radius": radius})
+        d = seen.get("data")
+        ok = (out == "result" and seen.get("model") == "sphere" and d is not None
+              and it.getattr(d, "qx_data") is qx and it.getattr(d, "qy_data") is qy
+              and it.getattr(d, "dqx_data") is dqx and it.getattr(d, "dqy_data") is dqy)
+        p = seen.get("pars")
+        ok = ok and p is not None and list(p.entries) == ["radius"] and p.entries["radius"][1] is radius
+        reg.prove("%s.Iqxy.forwards_q_and_resolution_in_the_documented_slots" % PROP, it.pc, z3.BoolVal(bool(ok)),
+                  function=fn, replay=lambda mdl=None: _convenience_replay())
+    it = Interp(reg)
+    it.poison_one_arm = False
+    try:
+        it.run_paths(body)
+    except OutsideSubset as exc:
+        reg.undecided("%s.Iqxy.engine" % PROP, "outside subset: %s" % exc, function=fn)
+
+    fn1 = "sasmodels.direct_model.Iq"
+
+    def body1(it):
+        seen = {}
+
+        def direct(it_, a, k):
+            seen["model"], seen["data"], seen["pars"] = a[0], a[1], a[2]
+            return "result"
+        it.summaries[MOD + "._direct_calculate"] = Summary(direct, "_direct_calculate", contract=False)
+
+        def data1d(it_, a, k):
+            return it_.new_obj(None, {"x": k.get("x"), "dx": k.get("dx"), "dxl": None, "dxw": None}, "Data1D")
+        it.models[sdata.Data1D] = data1d
+        it.models[sdata._as_numpy] = lambda it_, a, k: a[0]
+        n = z3.Int("n")
+        q, dq, ql, qw = (it.new_array(nm, n, "real") for nm in ("q", "dq", "ql", "qw"))
+        f = it.get_func(MOD, "Iq")
+        out = it.call(f, ["sphere", q], {"dq": dq, "ql": ql, "qw": qw})
+        d = seen.get("data")
+        ok = (out == "result" and d is not None and it.getattr(d, "x") is q and it.getattr(d, "dx") is dq
+              and it.getattr(d, "dxl") is ql and it.getattr(d, "dxw") is qw)
+        reg.prove("%s.Iq.forwards_q_and_resolution_in_the_documented_slots" % PROP, it.pc, z3.BoolVal(bool(ok)),
+                  function=fn1, replay=lambda mdl=None: _convenience_replay())
+    it = Interp(reg)
+    it.poison_one_arm = False
+    try:
+        it.run_paths(body1)
+    except OutsideSubset as exc:
+        reg.undecided("%s.Iq.engine" % PROP, "outside subset: %s" % exc, function=fn1)
+
+
+def _convenience_replay():
+    """Real Iqxy with anisotropic widths against DirectModel on an explicit Data2D."""
+    import numpy as np
+    from sasmodels import core, data as sdata
+    from sasmodels.direct_model import Iqxy, DirectModel
+    qx, qy = np.array([0.05, 0.02, 0.08]), np.array([0.0, 0.03, 0.01])
+    dqx, dqy = np.array([0.012, 0.01, 0.015]), np.array([0.001, 0.002, 0.001])
+    got = np.asarray(Iqxy("sphere", qx, qy, dqx=dqx, dqy=dqy, radius=120.0))
+    d = sdata.Data2D(x=qx, y=qy, dx=dqx, dy=dqy)
+    want = np.asarray(DirectModel(d, core.load_model("sphere"))(radius=120.0))
+    return not np.allclose(got, want, rtol=1e-12), {"call": "Iqxy('sphere', qx, qy, dqx=wide, dqy=narrow)",
+                                                    "real": got.tolist(), "spec_DirectModel_on_Data2D": want.tolist()}
